@@ -146,7 +146,8 @@ def gen_zone(rng):
                        "local", "local", "local_ambiguous", "local_gap",
                        "utc", "utc",
                        "numeric", "numeric_named", "gmt_plus", "unknown",
-                       "local_with_offset",
+                       "local_with_offset", "named_then_offset",
+                       "tzinfos_alias_ambiguous",
                        "tzinfos_over_local", "tzinfos_over_utc", "none"])
     op = ["zone", kind, [2003, rng.randrange(1, 13), rng.randrange(1, 29),
                          rng.randrange(24), rng.randrange(60),
@@ -158,6 +159,12 @@ def gen_zone(rng):
         op.append(rng.choice(TZINFOS_NAMES))
     elif kind in ("local", "local_ambiguous", "local_gap"):
         op.append(rng.randrange(2))
+    elif kind == "named_then_offset":
+        op.append(rng.choice(["BRST", "XYZT", "QWE"]))
+        op.append(rng.choice([-11, -3, -1, 1, 3, 9, 11]))
+    elif kind == "tzinfos_alias_ambiguous":
+        op.append(rng.choice(["ET", "XX", "EASTN"]))
+        op.append(rng.choice(["tzstr", "str", "callable"]))
     elif kind == "local_with_offset":
         op.append(rng.randrange(2))
         op.append(rng.choice(["name offset", "offset (name)"]))
@@ -591,6 +598,31 @@ def do_zone(env, ctx, op):
         text = base + " " + name
         expect = ("local", name, kind == "local_ambiguous") \
             if kind != "local_gap" else ("local_gap", name)
+    elif kind == "named_then_offset":
+        # an abbreviation that is neither local nor in tzinfos, a blank, a
+        # signed hour: a fixed offset of that many hours with that name
+        name, h = op[4], op[5]
+        if name in names_local:
+            return False
+        text = "%s %s %+d" % (base, name, h)
+        expect = ("offset", h * 3600, name)
+        tag = "tz.named_then_offset"
+    elif kind == "tzinfos_alias_ambiguous":
+        # tzinfos maps an alias (not one of the zone's own abbreviations) to
+        # a daylight-saving zone; the wall time lies in the repeated hour:
+        # the zone is attached and the first reading (fold=0) is kept
+        alias, how = op[4], op[5]
+        zs = "EST5EDT,M3.2.0,M11.1.0"
+        z = tz.tzstr(zs)
+        wall = datetime.datetime(2011, 11, 6, 1, 30)
+        base = "2011-11-06 01:30"
+        if alias in names_local:
+            return False
+        kw["tzinfos"] = {alias: z} if how == "tzstr" else \
+            {alias: zs} if how == "str" else (lambda n, o: z)
+        text = base + " " + alias
+        expect = ("alias_fold0", zs)
+        tag = "tz.tzinfos_alias_in_repeated_hour"
     elif kind == "local_with_offset":
         # a local abbreviation AND a numeric offset in one text (what
         # strftime("%Z %z") prints): local names come first in the
@@ -720,6 +752,10 @@ def do_zone(env, ctx, op):
             got.tzname() == name
     elif k in ("local_gap", "local_kind"):
         ok = isinstance(got.tzinfo, tz.tzlocal)
+    elif k == "alias_fold0":
+        ok = isinstance(got.tzinfo, tz.tzstr) and \
+            got.tzinfo == tz.tzstr(expect[1]) and got.fold == 0 and \
+            got.utcoffset().total_seconds() == -14400
     elif k == "local":
         _, name, ambiguous = expect
         ok = isinstance(got.tzinfo, tz.tzlocal)
